@@ -736,8 +736,15 @@ func runTrigStorm(p TrigStormPlan) (out vk.Outcome, verr error) {
 				}
 			}()
 			g := xsync.NewGroup(context.Background())
-			var started, ended atomic.Uint64
-			f := func(ctx context.Context) { started.Add(1); ended.Add(1) }
+			var started, ending, ended atomic.Uint64
+			f := func(ctx context.Context) {
+				started.Add(1)
+				for k := 0; k < 400; k++ { // a run takes a moment, so that "during" and "at the very end of" a run exist
+					stormSink.Add(1)
+				}
+				ending.Add(1) // the last thing f does before it returns
+				ended.Add(1)
+			}
 			var trigger func()
 			if p.Kind == "Trigger" {
 				trigger = g.Trigger(f)
@@ -774,6 +781,26 @@ func runTrigStorm(p TrigStormPlan) (out vk.Outcome, verr error) {
 				if !runAfter(&started, b) {
 					verr = vk.Violf("trigger-lost", "round %d: a %s trigger call made right after a run had finished (%d busy iterations later) was never followed by a run that began after it", round, p.Kind, round%(p.Sweep+1))
 					break
+				}
+				if round%2 == 1 {
+					// ... and one made during a run, or in that run's last instructions: the run in progress began
+					// before the call, so another one has to begin after it
+					s0, en := started.Load(), ending.Load()
+					trigger()
+					if !runAfter(&started, s0) {
+						verr = vk.Violf("trigger-lost", "round %d: a %s trigger call on an idle worker was not followed by a run", round, p.Kind)
+						break
+					}
+					if round%4 == 1 { // wait for the run to reach its last instruction
+						for i := 0; i < 20000 && ending.Load() == en; i++ {
+						}
+					}
+					b = started.Load()
+					trigger()
+					if !runAfter(&started, b) {
+						verr = vk.Violf("trigger-lost", "round %d: a %s trigger call made while a run was under way (ending: %v) was never followed by a run that began after the call", round, p.Kind, round%4 == 1)
+						break
+					}
 				}
 			}
 			g.StopAndWait()
